@@ -6,6 +6,11 @@ HERE = os.path.dirname(os.path.dirname(os.path.abspath(__file__)))
 
 # id -> (category, technique, level text, level note, design ref)
 CHECKS = {
+ "C03": ("exploration",
+         "property-based testing + exhaustive tables: independent IR type lint of accepted programs; single injected typing violations with valid twins must be rejected",
+         "Accepted programs (generated programs with implicit conversions at initialisers, assignments, arguments and returns; every 1-2 operator expression tree on int / float / mixed operands; the repository's .rssl inputs) are type checked and the resulting module is walked by an independent checker with structural types - operand classes and equality for every operator, non-const lvalues for every write, call arity / argument types / out arguments, return types, constructor slots, initialiser shapes, conditions, subscripts, dangling ids - and by RSSL's own get_type asserts. 86 kinds of single typing violations x 15 expression / 5 statement / 3 return contexts x 3 placements (exhaustive on an empty base, random inside generated programs) plus a catalogue of 10 resource-related pairs must be rejected while their valid twins are accepted. 33 000 cases quick, about 400 000 thorough.",
+         "The linter models the resource-free subset; object types, intrinsic signatures and matrix aggregates are opaque (counted). Violation kinds are the ones HLSL itself rejects; break/continue outside loops are not typing and not covered. One recorded finding: KF-C03-1 (writes to constant buffer members).",
+         "DESIGN.md section 3, C03"),
  "C01": ("translation_validation",
          "differential execution (property-based + exhaustive small shapes): interpreter of the typed IR vs an independent parser and evaluator of the emitted HLSL text",
          "Every expression tree with 1-2 (quick) / 1-3 (thorough) operator nodes over the whole operator table on int, float and mixed int/float/uint/bool operands, and generated whole programs of the executable resource-free subset, are compiled for DirectX and Vulkan HLSL. The typed IR is run by an interpreter (RSSL's semantics) and the emitted text is parsed by an independent C-like parser and run by an evaluator with HLSL's rules (literal typing, usual arithmetic conversions, copy-in/copy-out) on 3 boundary argument vectors per function; return value, out/inout parameters and static globals are compared bit-exactly. 37 000 programs quick, about 1.2 M thorough.",
